@@ -1396,6 +1396,10 @@ Linear_Expression_Impl<Row>::ascii_load(std::istream& s) {
   if (!(s >> new_size)) {
     return false;
   }
+  // There always is the inhomogeneous term.
+  if (new_size == 0) {
+    return false;
+  }
 
   row.resize(0);
   row.resize(new_size);
